@@ -26,7 +26,9 @@ Added by the seeding rounds - C04.1 propagation calls are made on self, both
 as recursion and as an iterative walk, and un-placement lives only in
 Server.remove / _fix_invalid_placements (a bulk reset must not skip the per-
 instance bookkeeping); C04.3 every store into self.apps lies behind the
-admission predicate of every level, restore included.
+admission predicate of every level, restore included. Fourth round: C04.3 a
+server enters the tree (or changes parent) as a fresh object - a live server
+is never re-attached together with its instances.
 Does NOT decide that the counters equal the true counts over histories.
 """
 
